@@ -85,7 +85,7 @@ extern int g_ncompl;
 process_result Transition_execute(type_t tr, fsm_t* self, uint8_t region_id, event_t ev)
 __CPROVER_requires(g_ncompl == 0 && !g_exc)
 __CPROVER_requires(!(g_has_blocking_states && (g_flag_terminate || g_flag_interrupted)))       /*@ob C11.blocked-machine-processes-nothing */
-__CPROVER_requires(self->m_event_processing)                                     /*@ob C04.whole-step-runs-with-the-busy-mark-set */
+__CPROVER_requires(self->m_event_processing)                                     /*@ob C04,C10.completion-transition-runs-with-the-busy-mark-set-events-it-raises-wait-for-the-chain */
 __CPROVER_assigns(g_ncompl, g_handled, g_exc, g_threw)
 __CPROVER_ensures(g_ncompl == 1 && 0 <= g_handled && g_handled <= 7 && (int)__CPROVER_return_value == g_handled)
 __CPROVER_ensures(g_threw == (g_exc ? 1 : 0))
